@@ -3094,6 +3094,11 @@ class ChannelManager:
                 del connection_channels[cid]
             raise
 
+        if any(
+            channel.state != LeCreditBasedChannel.State.CONNECTED for channel in channels
+        ):
+            raise InvalidStateError('connection lost')
+
         # Remember the channel by source CID and destination CID
         le_connection_channels = self.le_coc_channels.setdefault(connection.handle, {})
         for channel in channels:
